@@ -49,15 +49,15 @@ var rtErrType = types.NewNamed(types.NewTypeName(token.NoPos, nil, "runtime۰Err
 
 // Run-time error kinds.
 const (
-	ErrNil        = "nil"        // invalid memory address or nil pointer dereference
-	ErrIndex      = "index"      // index out of range
-	ErrSlice      = "slice"      // slice bounds out of range
-	ErrDivide     = "divide"     // integer divide by zero
-	ErrShift      = "shift"      // negative shift amount
-	ErrAssert     = "assert"     // interface conversion
-	ErrMakeSlice  = "makeslice"  // makeslice: len/cap out of range
-	ErrSliceToArr = "slice2arr"  // cannot convert slice with length n to array of length m
-	ErrNilMap     = "nilmap"     // assignment to entry in nil map
+	ErrNil          = "nil"          // invalid memory address or nil pointer dereference
+	ErrIndex        = "index"        // index out of range
+	ErrSlice        = "slice"        // slice bounds out of range
+	ErrDivide       = "divide"       // integer divide by zero
+	ErrShift        = "shift"        // negative shift amount
+	ErrAssert       = "assert"       // interface conversion
+	ErrMakeSlice    = "makeslice"    // makeslice: len/cap out of range
+	ErrSliceToArr   = "slice2arr"    // cannot convert slice with length n to array of length m
+	ErrNilMap       = "nilmap"       // assignment to entry in nil map
 	ErrUncomparable = "uncomparable" // comparing uncomparable / hash of unhashable type
 	// A failed TypeAssert of a nil interface to an interface type: the IR uses this both for a
 	// source-level x.(I) (Go: interface conversion error) and for the nil check of an
@@ -124,12 +124,12 @@ func (i *Interp) Global(name string) (any, types.Type) {
 
 // Result is the outcome of one evaluation.
 type Result struct {
-	Values      []any  // results (a tuple is flattened), valid if Status == "ok"
-	Status      string // "ok", "panic", "unsupported", "fuel", "crash"
-	PanicClass  string // Status=="panic": "runtime:<kind>" or "user:<formatted value>"
-	Detail      string // unsupported / crash message
-	Log         []string
-	Steps       int
+	Values     []any  // results (a tuple is flattened), valid if Status == "ok"
+	Status     string // "ok", "panic", "unsupported", "fuel", "crash"
+	PanicClass string // Status=="panic": "runtime:<kind>" or "user:<formatted value>"
+	Detail     string // unsupported / crash message
+	Log        []string
+	Steps      int
 }
 
 // Call runs fn(args...) with the given step budget.
